@@ -69,6 +69,18 @@ fn compound_terms<U: User, E: Engine<U>>(
     }
 }
 
+/// A constraint whose operands were bound while it was running has not been re-checked since;
+/// this goal checks the remaining constraints against the current bindings.
+#[cfg(feature = "clpfd")]
+fn recheck_constraints<U: User, E: Engine<U>>() -> Goal<U, E> {
+    proto_vulcan!(fngoal | _engine, state | {
+        match state.run_constraints() {
+            Ok(state) => Stream::unit(Box::new(state)),
+            Err(_) => Stream::empty(),
+        }
+    })
+}
+
 #[cfg(feature = "clpfd")]
 fn enforce_constraints_fd<U: User, E: Engine<U>>(x: LTerm<U, E>) -> Goal<U, E> {
     proto_vulcan!([
@@ -77,16 +89,8 @@ fn enforce_constraints_fd<U: User, E: Engine<U>>(x: LTerm<U, E>) -> Goal<U, E> {
         state | {
             state.verify_all_bound();
             let bound_x = state.dstore_ref().keys().cloned().collect::<LTerm<U, E>>();
-            proto_vulcan!( onceo { force_ans(bound_x) } ).solve(engine, state)
-        },
-        fngoal | _engine,
-        state | {
-            // A constraint whose operands were bound while it was running has not been
-            // re-checked since; check the remaining constraints against the final bindings.
-            match state.run_constraints() {
-                Ok(state) => Stream::unit(Box::new(state)),
-                Err(_) => Stream::empty(),
-            }
+            // The first labeling of the remaining variables that passes the re-check is kept.
+            proto_vulcan!( onceo { force_ans(bound_x), recheck_constraints() } ).solve(engine, state)
         }
     ])
 }
